@@ -271,7 +271,11 @@ func runSCIONServer(ctx context.Context, log *slog.Logger, mtrcs *scionServerMet
 			}
 			buffer.PushLayer(udpLayer.LayerType())
 
-			if len(oob) != 0 {
+			// The timestamp option is added only if the extension can still hold it: the
+			// extension length field counts 4-byte units up to 1024 bytes.
+			if len(oob) != 0 &&
+				(scionLayer.NextHdr != slayers.End2EndClass ||
+					e2eLayer.ActualLen+2+len(oob)+3 <= 1024) {
 				tsOpt.OptType = scion.OptTypeTimestamp
 				tsOpt.OptData = oob
 				tsOpt.OptAlign[0] = 0
